@@ -55,6 +55,18 @@ pub fn selftest_main(full: bool) -> i32 {
             bad += 1;
         }
     }
+    // the clock seam, in a process of its own (this one keeps real time)
+    match std::process::Command::new(std::env::current_exe().unwrap()).arg("clock-selftest").output() {
+        Ok(o) if o.status.success() => println!("selftest: {}", String::from_utf8_lossy(&o.stdout).trim()),
+        Ok(o) => {
+            println!("SELFTEST-FAIL {}", String::from_utf8_lossy(&o.stdout).trim());
+            bad += 1;
+        }
+        Err(e) => {
+            println!("SELFTEST-FAIL clock seam: {e}");
+            bad += 1;
+        }
+    }
     match crate::collisions::verify() {
         Ok(n) => println!("selftest: {n} colliding secret / message pairs collide under their fingerprints"),
         Err(e) => {
